@@ -6,6 +6,7 @@ import (
 	"context"
 	"fmt"
 	"io"
+	"runtime"
 	"sort"
 	"strings"
 	"sync"
@@ -396,6 +397,9 @@ func runForwarder(t *testing.T, faults bool) {
 			select {
 			case <-r.done:
 			case <-time.After(30 * time.Second):
+				buf := make([]byte, 1<<20)
+				buf = buf[:runtime.Stack(buf, true)]
+				vt.WriteCase(map[string]interface{}{"goroutines": string(buf)})
 				vt.Fail(t, "C15:run-does-not-return", "forwarder Run did not return within 30s after cancellation (a semaphore token was not returned)")
 			}
 		}()
@@ -514,15 +518,15 @@ func runForwarder(t *testing.T, faults bool) {
 // finalBodies returns, per distinct body that has reached a final state, its decoded content.
 func finalBodies(t vt.TB, r *rigT) (final map[string]model.Agg, acked map[string]bool) {
 	final, acked = map[string]model.Agg{}, map[string]bool{}
-	for _, a := range r.rt.Attempts() {
-		_ = a
-	}
+	// only attempts the script has answered (logged) count: an attempt the transport has recorded but whose outcome is
+	// not decided yet is neither acknowledged nor abandoned
 	logs := r.snapshot()
 	last := map[string]string{}
+	var atts []*fakes.Attempt
 	for _, l := range logs {
 		last[l.body] = l.outcome
+		atts = append(atts, l.att)
 	}
-	atts := r.rt.Attempts()
 	decoded := map[string]model.Agg{}
 	for _, a := range atts {
 		k := string(a.Body)
@@ -572,10 +576,11 @@ func unionWithAbandoned(r *rigT, union model.Agg) model.Agg {
 	}
 	logs := r.snapshot()
 	last := map[string]string{}
+	var atts []*fakes.Attempt
 	for _, l := range logs {
 		last[l.body] = l.outcome
+		atts = append(atts, l.att)
 	}
-	atts := r.rt.Attempts()
 	seen := map[string]bool{}
 	for _, a := range atts {
 		k := string(a.Body)
